@@ -8,14 +8,20 @@ open CC.Tree (Path Dir)
 /-- replacing a subtree by one with the same root pointer needs no write to the node above -/
 theorem Rep.replace_same_root {h h' : Heap} {t : ITree} (hr : Rep h t 0) (hnd : t.ids.Nodup) (q : Path)
     {x c a k v b} (hs : t.subtree q = .node x c a k v b) (s' : ITree) (hrid : s'.rid = x)
-    (hout : ∀ i, i ≠ 0 → i ∉ (t.subtree q).ids → h'.get i = h.get i)
+    (hout : ∀ i ∈ t.ids, i ∉ (t.subtree q).ids → h'.get i = h.get i)
     (hsub : Rep h' s' (parentAt t 0 q)) :
     Rep h' (t.replace q s') 0 := by
   refine hr.replace hnd q s' (fun i h0 hi _ => hout i h0 hi) hsub ?_
   intro q0 d hq
   subst hq
   obtain ⟨p1, p2, p3, p4⟩ := hr.parent_child hnd q0 d hs
-  rw [hout _ p1 p2, hrid]
+  rw [hout _ (by
+    have := ITree.rid_subtree_mem t q0
+    have hpa : parentAt t 0 (q0 ++ [d]) = (t.subtree q0).rid := by simp [parentAt]
+    rw [hpa] at p1 ⊢
+    rcases this with h0 | hm
+    · exact absurd h0 p1
+    · exact hm) p2, hrid]
   cases d with
   | L => have := p3.2 rfl; simp only [withChild]; rw [← this]
   | R => have := p4.2 rfl; simp only [withChild]; rw [← this]
@@ -108,8 +114,9 @@ theorem Represents.of_rep {st st' : PT} {t : ITree} (h : Represents st t) (t' : 
     (hrep : Rep st'.heap t' 0) (hroot : st'.root = t'.rid) (hperm : t'.ids.Perm t.ids)
     (h0 : st'.heap.get 0 = st.heap.get 0) (hsz : st'.size = st.size) (hfr : st'.fresh = st.fresh) :
     Represents st' t' :=
-  ⟨hroot, hrep, (List.Perm.nodup_iff hperm).2 h.nodup, by rw [h0]; exact h.black,
-    by rw [hsz, h.size, hperm.length_eq], fun i hi => by rw [hfr]; exact h.fresh i (hperm.subset hi)⟩
+  ⟨hroot, hrep, (List.Perm.nodup_iff hperm).2 h.nodup, by rw [h0]; exact h.black, by rw [h0]; exact h.sent,
+    by rw [hsz, h.size, hperm.length_eq], fun i hi => by rw [hfr]; exact h.fresh i (hperm.subset hi),
+    by rw [hfr]; exact h.fresh_pos⟩
 
 /-- recolouring keeps `Represents` -/
 theorem setColor_represents {st : PT} {t : ITree} (h : Represents st t) (q : Path)
